@@ -423,6 +423,10 @@ func marshalShape(w *World, fn *ssa.Function) (string, string) {
 // ruleMarshalTwins: I1/I2/J4 — custom Marshal methods exist in CBOR/JSON
 // pairs of identical shape, each has an Unmarshal twin, and the only change
 // made to the encoded copy is nil-ing an empty component container.
+// normalises: types whose marshal methods must drop an empty component
+// container (profile 1: list and no-measurements flag are exclusive on the wire).
+var normalises = map[string]bool{"P1Claims": true}
+
 func ruleMarshalTwins(w *World, r *Recorder, rule string, wantJSON bool) {
 	type pair struct{ a, b string }
 	var types_ []*types.Named
@@ -435,13 +439,23 @@ func ruleMarshalTwins(w *World, r *Recorder, rule string, wantJSON bool) {
 		mc, uc := w.MethodImpl(t, "MarshalCBOR"), w.MethodImpl(t, "UnmarshalCBOR")
 		mj, uj := w.MethodImpl(t, "MarshalJSON"), w.MethodImpl(t, "UnmarshalJSON")
 		name := t.Obj().Name()
+		if mc == nil && normalises[name] {
+			r.Refute(rule, name+".MarshalCBOR#shape", w.typePos(t), "profile 1 has no MarshalCBOR that drops an empty component container: an empty list would be emitted (possibly next to the no-measurements flag)")
+		}
+		if wantJSON && mj == nil && normalises[name] {
+			r.Refute(rule, name+".MarshalJSON#shape", w.typePos(t), "profile 1 has no MarshalJSON that drops an empty component container")
+		}
 		if mc != nil {
 			r.Check(uc != nil, rule, name+".MarshalCBOR#twin", w.FnPos(mc), "has UnmarshalCBOR twin", "custom MarshalCBOR without UnmarshalCBOR")
 			sh, why := marshalShape(w, mc)
 			if why != "" {
 				r.Undecide(rule, name+".MarshalCBOR#shape", w.FnPos(mc), why)
 			} else {
-				ok := !strings.Contains(sh, "panic") && onlyContainerNilled(sh) && emptyAlwaysNilled(sh)
+				ok := !strings.Contains(sh, "panic") && onlyContainerNilled(sh) && emptyAlwaysNilled(sh) && nilledOnlyWhenEmpty(sh)
+				if ok && normalises[name] && !strings.Contains(sh, "nilled=.SwComponents)") {
+					ok = false
+					sh = "an empty component container is never replaced by nil before encoding (it would be emitted next to the no-measurements flag): " + sh
+				}
 				r.Check(ok, rule, name+".MarshalCBOR#shape", w.FnPos(mc), "encodes a copy of the receiver; the only normalisation is nil-ing an empty component container: "+clip(sh, 300), "custom MarshalCBOR alters the encoded copy beyond nil-ing an empty component container: "+clip(sh, 400))
 			}
 		}
@@ -578,6 +592,7 @@ func checkC10(w *World, r *Recorder) propInfo {
 	ruleModesInitOnly(w, r, "C10-W4m")
 	ruleMarshalTwins(w, r, "C10-W5", false)
 	ruleContainerCodec(w, r, "C10-W6", false)
+	ruleEncodeReturnsCodecOutput(w, r, "C10-W7", false)
 	r.Floor("C10-W1", 26)
 	r.Floor("C10-W3", 26)
 	r.Floor("C10-W4", 1)
@@ -602,6 +617,7 @@ func checkC09(w *World, r *Recorder) propInfo {
 	ruleOptions(w, r, "C09-I5e", "EncOptions")
 	ruleOptions(w, r, "C09-I5d", "DecOptions")
 	ruleModesInitOnly(w, r, "C09-I5")
+	ruleEncodeReturnsCodecOutput(w, r, "C09-I6", false)
 	r.Floor("C09-I1", 2)
 	r.Floor("C09-I2", 2)
 	r.Floor("C09-I3", 26)
@@ -633,6 +649,10 @@ func checkC04(w *World, r *Recorder) propInfo {
 	sub2 := NewRecorder(r.Property)
 	c07CBORDispatch(w, sub2)
 	remap(r, sub2, map[string]string{"C07-P1": "C04-T6"})
+	// T7: every decode works on a fresh claims object (no state shared with earlier tokens)
+	sub3 := NewRecorder(r.Property)
+	c16Factories(w, sub3)
+	remap(r, sub3, map[string]string{"C16-N3": "C04-T7"})
 	r.Floor("C04-T1", 26)
 	r.Floor("C04-T2", 2)
 	r.Floor("C04-T3", 1)
@@ -724,6 +744,7 @@ func checkC12(w *World, r *Recorder) propInfo {
 	ruleUnmarshalShape(w, r, "C12-J4u", "UnmarshalJSON", true)
 	ruleContainerCodec(w, r, "C12-J4c", true)
 	c07JSONDispatch(w, r, "C12-J5")
+	ruleEncodeReturnsCodecOutput(w, r, "C12-J7", true)
 	// J6
 	if fn := w.findFunc("Evidence", "MarshalJSON"); fn == nil {
 		r.Undecide("C12-J6", "Evidence.MarshalJSON", "-", "not found")
@@ -774,4 +795,85 @@ func emptyAlwaysNilled(shape string) bool {
 		}
 	}
 	return true
+}
+
+// nilledOnlyWhenEmpty: the container is nilled only on paths whose condition
+// says it is empty.
+func nilledOnlyWhenEmpty(shape string) bool {
+	for _, line := range strings.Split(shape, " | ") {
+		parts := strings.SplitN(line, " => ", 2)
+		if len(parts) != 2 || !strings.Contains(parts[1], "nilled=.SwComponents)") {
+			continue
+		}
+		empty := false
+		for _, c := range strings.Split(parts[0], " ∧ ") {
+			if strings.Contains(c, ".IsEmpty") && !strings.HasPrefix(c, "¬") {
+				empty = true
+			}
+		}
+		if !empty {
+			return false
+		}
+	}
+	return true
+}
+
+// ruleEncodeReturnsCodecOutput: the (validate-and-)encode functions return
+// the codec's output for their argument unchanged.
+func ruleEncodeReturnsCodecOutput(w *World, r *Recorder, rule string, json bool) {
+	names := []string{"EncodeClaimsToCBOR", "ValidateAndEncodeClaimsToCBOR"}
+	if json {
+		names = []string{"EncodeClaimsToJSON", "ValidateAndEncodeClaimsToJSON"}
+	}
+	for _, n := range names {
+		fn := w.Root.Func(n)
+		if fn == nil {
+			r.Undecide(rule, n, "-", "not found")
+			continue
+		}
+		s := w.SummariseWith(fn, noInlineValidate(w))
+		if ok, why := s.Complete(); !ok {
+			r.Undecide(rule, n, w.FnPos(fn), why)
+			continue
+		}
+		ok, why, succ := true, "", 0
+		for _, p := range s.Paths {
+			if p.Ret == nil {
+				continue
+			}
+			_, nl := errOf(p, 1)
+			if nl == 1 && !strings.Contains(p.Rets[1].name(), "Marshal") {
+				continue // validation failure
+			}
+			succ++
+			var m *Event
+			cnt := 0
+			for i := range p.St.events {
+				if a, is := isMarshalCall(p.St.events[i]); is {
+					cnt++
+					if avSubject(a) == fn.Params[0].Name() {
+						m = &p.St.events[i]
+					}
+				}
+			}
+			switch {
+			case m == nil || cnt != 1:
+				ok, why = false, "does not encode its argument exactly once"
+			case json != (m.Callee == "encoding/json.Marshal"):
+				ok, why = false, "uses the other codec"
+			case p.Rets[0].name() != resultElem(*m, 0).name():
+				ok, why = false, "returns "+p.Rets[0].name()+" instead of the codec's output (post-processing of the encoded bytes)"
+			case p.Rets[1].name() != resultElem(*m, 1).name():
+				ok, why = false, "does not return the codec's error"
+			}
+			for _, ev := range p.St.events {
+				if ev.Kind == "call" && !isValidateCall(ev) && ev.Callee != "fmt.Errorf" {
+					if _, is := isMarshalCall(ev); !is {
+						ok, why = false, "calls "+shortName(ev.Callee)+" besides Validate and the codec"
+					}
+				}
+			}
+		}
+		r.Check(ok && succ > 0, rule, n, w.FnPos(fn), "returns the codec's output for its argument unchanged", why)
+	}
 }
